@@ -28,8 +28,9 @@ ASSUMPTIONS = ["no input defines a symbol literally named __real_S", "default-vi
 
 
 def gen(r):
-    nw = r.range(1, 2)
-    W = list(range(nw))
+    nw = r.choice([1, 1, 2, 2, 3])
+    # names sym_0, sym_1, sym_10: one wrapped name may be a prefix of another; the order of the --wrap options is random
+    W = r.shuffle([0, 1, 10])[:nw]
     nfiles = r.range(2, 5)
     files = []
     g = 0
@@ -116,9 +117,12 @@ def run(ctx):
             ctx.count("gen", "build-failed")
             continue
         out = os.path.join(d, "out.wild")
+        req = lm.request_line(files, False).replace("lk 0", "lkw " + ",".join(map(str, W)) + " 0", 1)
+        if r.chance(1, 6):
+            W = W + [W[0]]          # the same --wrap given twice (build systems do that): no different from giving it once
+            ctx.count("wrap-options", "repeated")
         rc, o, e = link("wild", d, line, W, out)
         ci = c02.canon_impl(files, rc, e, out)
-        req = lm.request_line(files, False).replace("lk 0", "lkw " + ",".join(map(str, W)) + " 0", 1)
         reqs.append(req)
         impl.append(ci)
         inputs.append((W, files, line, d))
